@@ -9,7 +9,7 @@ CONSTANTS
   Stim = {"demote", "ho1", "ho1x", "ho9"}
   StimAnywhere = FALSE
   Focus = "all"
-  AllowMute = FALSE
+  Mute = "never"
   CheckAfterAcquire = FALSE
   Mut = "none"
   Emit = "edge"
